@@ -73,6 +73,8 @@ func (h Header) text() string {
 	for _, r := range h.Revisions {
 		fmt.Fprintf(&b, " revision %s;\n", r)
 	}
+	// every revision defines t, g and id in its own way, so that what a prefix denotes is observable
+	fmt.Fprintf(&b, " typedef t { type string; units \"%s\"; }\n grouping g { leaf from-%s { type string; } }\n identity id;\n", h.Tag, h.Tag)
 	b.WriteString("}\n")
 	return b.String()
 }
@@ -89,7 +91,7 @@ func (i Importer) text() string {
 	if i.Date != "" {
 		d = " revision-date " + i.Date + ";"
 	}
-	return fmt.Sprintf("module %s {\n namespace \"urn:%s\";\n prefix q;\n import %s { prefix i;%s }\n}\n", i.Name, i.Name, i.Of, d)
+	return fmt.Sprintf("module %s {\n namespace \"urn:%s\";\n prefix q;\n import %s { prefix i;%s }\n leaf l { type i:t; }\n container c { uses i:g; }\n leaf r { type identityref { base i:id; } }\n}\n", i.Name, i.Name, i.Of, d)
 }
 
 // ---- (a) revisions ----
@@ -229,12 +231,39 @@ func checkRevisions(c Case, o *ev.Outcome) {
 				} else {
 					exp = "urn:" + want[key{im.Of, im.Date}]
 				}
+				kind := "undated"
+				if im.Date != "" {
+					kind = "dated"
+				}
 				if got != exp {
-					kind := "undated"
-					if im.Date != "" {
-						kind = "dated"
-					}
 					o.Violate("import-denotes-revision", "C13/revisions/import-binding/"+kind+"/"+cls, "load order %v: import %s (revision-date %q) in %s is bound to %s, expected %s", perm, im.Of, im.Date, im.Name, got, exp)
+					return
+				}
+				// what the prefix denotes for types, groupings and identities
+				tag := strings.TrimPrefix(exp, "urn:")
+				e := yang.ToEntry(mod)
+				if l := e.Dir["l"]; l == nil || l.Type == nil || l.Type.Units != tag {
+					gotU := "?"
+					if l != nil && l.Type != nil {
+						gotU = l.Type.Units
+					}
+					o.Violate("prefix-denotes-revision", "C13/revisions/prefix-binding/typedef/"+kind+"/"+cls, "load order %v: in %s the type i:t (import %s, revision-date %q) is the typedef of %q, expected %q", perm, im.Name, im.Of, im.Date, gotU, tag)
+					return
+				}
+				if c := e.Dir["c"]; c == nil || c.Dir["from-"+tag] == nil || len(c.Dir) != 1 {
+					o.Violate("prefix-denotes-revision", "C13/revisions/prefix-binding/grouping/"+kind+"/"+cls, "load order %v: in %s 'uses i:g' (import %s, revision-date %q) did not expand the grouping of %q", perm, im.Name, im.Of, im.Date, tag)
+					return
+				}
+				if r := e.Dir["r"]; r == nil || r.Type == nil || r.Type.IdentityBase == nil || canon.OwnerName(r.Type.IdentityBase) != im.Of || yang.RootNode(r.Type.IdentityBase).Namespace.Name != exp {
+					o.Violate("prefix-denotes-revision", "C13/revisions/prefix-binding/identity/"+kind+"/"+cls, "load order %v: in %s the identityref base i:id (import %s, revision-date %q) is not the identity of %q (%s)", perm, im.Name, im.Of, im.Date, tag, func() string {
+						if r == nil || r.Type == nil {
+							return "no leaf/type"
+						}
+						if r.Type.IdentityBase == nil {
+							return "IdentityBase is nil"
+						}
+						return "found in " + canon.OwnerName(r.Type.IdentityBase) + " " + yang.RootNode(r.Type.IdentityBase).Namespace.Name
+					}())
 					return
 				}
 			}
